@@ -24,6 +24,13 @@ type Plan struct {
 	Quantum  int        `json:"quantum"`
 	PCT      int        `json:"pct,omitempty"`
 	Tasks    [][]string `json:"tasks"` // per task: ops "enq" | "deq" | "len" | "empty"
+	// Stall > 0: task 0 is parked after that many of its scheduling points (i.e.
+	// between two atomic steps of its first operation) while task 1 runs its whole
+	// (long) script, then resumes: node recycling / ABA needs an operation to sleep
+	// through many others. Such histories are too long for the linearizability
+	// checker; they are judged by exactly-once, no invention, per-producer order
+	// and the quiescent length.
+	Stall int `json:"stall,omitempty"`
 }
 
 func Generate(seed uint64, prop, tier string) *Plan {
@@ -32,6 +39,19 @@ func Generate(seed uint64, prop, tier string) *Plan {
 	p.Strategy = []string{"random", "random", "pct", "starve"}[r.Intn(4)]
 	p.Quantum = r.Pick(1, 1, 1, 2, 4)
 	p.PCT = r.Range(1, 4)
+	if r.Chance(1, 25) {
+		p.Strategy, p.Quantum = "random", 1
+		p.Stall = r.Range(1, 9)
+		p.Tasks = append(p.Tasks, []string{[]string{"enq", "deq", "enq"}[r.Intn(3)], "enq"})
+		var churn []string
+		// how many operations the parked one sleeps through: around powers of two
+		// (recycling schemes keep rings and batches of such sizes)
+		for n := (1 << r.Range(3, 11)) + r.Range(-2, 3); n > 0; n-- {
+			churn = append(churn, "enq", "deq")
+		}
+		p.Tasks = append(p.Tasks, churn)
+		return p
+	}
 	nt := r.Range(2, 4)
 	total := 0
 	for i := 0; i < nt; i++ {
@@ -166,13 +186,24 @@ func Execute(t *testing.T, p *Plan, prop string) (out runner.Outcome) {
 			}
 		}()
 		synctest.Test(t, func(t *testing.T) {
-			s := vsched.New(vsched.Config{Seed: p.Seed, Strategy: p.Strategy, Quantum: p.Quantum, PCTDepth: p.PCT, MaxSteps: 20000})
+			cfg := vsched.Config{Seed: p.Seed, Strategy: p.Strategy, Quantum: p.Quantum, PCTDepth: p.PCT, MaxSteps: 20000}
+			if p.Stall > 0 && len(p.Tasks) >= 2 {
+				for i := 0; i < p.Stall; i++ {
+					cfg.Decisions = append(cfg.Decisions, "t0|0")
+				}
+				for i := 0; i < 40*len(p.Tasks[1])+100; i++ {
+					cfg.Decisions = append(cfg.Decisions, "t1|0")
+				}
+				cfg.MaxSteps = 200000
+			}
+			s := vsched.New(cfg)
 			defer s.Close()
 			q := queue.NewLockFreeQueue()
 			var clock int64
 			nextID := 0
 			enqueued := map[int]int{} // id -> producer
 			dequeued := map[int]int{}
+			var deqOrder []int // ids in the order they came out (meaningful with one consumer at a time)
 			s.OnPanic = func(task string, v any, stack []byte) { fail("panic", "task %s panicked: %v", task, v) }
 			s.OnQuiescent = func(int) int { return vsched.QStop }
 			for ti, script := range p.Tasks {
@@ -204,6 +235,7 @@ func Execute(t *testing.T, p *Plan, prop string) (out runner.Outcome) {
 								} else {
 									o.val = id
 									dequeued[id]++
+									deqOrder = append(deqOrder, id)
 								}
 							}
 						case "len":
@@ -230,6 +262,7 @@ func Execute(t *testing.T, p *Plan, prop string) (out runner.Outcome) {
 					}
 					if id, ok := tk.Param.(int); ok {
 						dequeued[id]++
+						deqOrder = append(deqOrder, id)
 					} else {
 						fail("invented", "Dequeue returned a task that was never enqueued")
 					}
@@ -253,6 +286,20 @@ func Execute(t *testing.T, p *Plan, prop string) (out runner.Outcome) {
 				if _, ok := enqueued[id]; !ok || n > 1 {
 					fail("exactly-once", "task %d dequeued %d times (enqueued: %v)", id, n, ok)
 				}
+			}
+			if p.Stall > 0 {
+				// consumers never overlapped (task 1, then the drain): the order in
+				// which items came out must keep each producer's enqueue order
+				last := map[int]int{}
+				for _, id := range deqOrder {
+					pr := enqueued[id]
+					if id < last[pr] {
+						fail("producer-order", "item %d of producer t%d came out after its later item %d", id, pr, last[pr])
+						break
+					}
+					last[pr] = id
+				}
+				probes["stalled-operation-histories"]++
 			}
 			steps, sig, contended = s.Step(), s.Signature(), s.Contended
 			s.Teardown()
@@ -295,7 +342,7 @@ func Execute(t *testing.T, p *Plan, prop string) (out runner.Outcome) {
 			fail("isempty", "IsEmpty()=%v with no operation in flight and %d tasks in the queue", oo.b, size)
 		}
 	}
-	if viol == nil && len(ops) > 0 {
+	if viol == nil && len(ops) > 0 && p.Stall == 0 {
 		res := porcupine.CheckOperationsTimeout(model, ops, 20*time.Second)
 		switch res {
 		case porcupine.Illegal:
